@@ -21,7 +21,7 @@ def run(ctx):
            timeout=tmo, twin_fn='tw_total', twin_pre=['tb_kind == 1', 'len(text) == 0'], confirm='confirm_total',
            desc='create_app(parse-or-fallback) + get_flaw_info are total for str/None/bytes/int error texts and None/empty/short file lists'),
         Ob('parse_std', 'ob_parse_std', 'form: int, T: str, M: str',
-           pre=['0 <= form <= 1', '1 <= len(T) <= 3', 'len(M) <= %d' % L, 'all(c in "ABab_" for c in T)',
+           pre=['0 <= form <= 1', '1 <= len(T) <= 3', 'len(M) <= %d' % L, 'all(c in "ABab_." for c in T)', 'T[0] != "." and T[-1] != "." and ".." not in T',
                 'all(c in "<&: aé%{}" for c in M)'],
            cells=[('form%d_T%d_M%d' % (f, t, m), ['form == %d' % f, 'len(T) == %d' % t, 'len(M) == %d' % m])
                   for f in range(2) for t in (1, 2, 3) for m in range(L + 1) if t + m <= (5 if T else 4)],
@@ -63,7 +63,7 @@ def run(ctx):
             res.violations.append(dict(name='page_escape', args=t, how='rendered failsafe page does not contain the escaped text / contains raw markup', replay=p))
     res.functions_encoded += ['clastic.flaw.create_app', 'get_flaw_info', '_ParsedTB.from_string/to_dict', '_filter_site_files', 'ashes.escape_html (html.escape)']
     res.bounds.update(dict(error_text='str <= %d chars (unrestricted alphabet), None, bytes, int' % L, files='None, [], 1-3 names <= 2 chars',
-                           traceback='type 1-3 identifier chars, message <= %d chars over "<&: aé%%{}"' % L, escape='s <= %d chars, any characters' % L))
+                           traceback='type 1-3 chars of a (possibly module-qualified) name, message <= %d chars over "<&: aé%%{}"' % L, escape='s <= %d chars, any characters' % L))
     res.outside += ['ashes template engine executed on symbolic text', 'server.py (subprocess/threads/sockets)', 'texts longer than the bound']
     res.assumptions += ['Application/AshesRenderFactory/StaticApplication replaced by recording stubs inside clastic.flaw for the unit obligations (confirm legs build the real application)',
                         'the template applies the default auto-escape filter to a reference without explicit filter (ashes semantics, checked on concrete renders)']
